@@ -1301,23 +1301,31 @@ class Context:
             MemoryLimitError: If memory limit is exceeded
             TimeLimitError: If time limit is exceeded
         """
+        # An evaluation started while another one runs (a host function that
+        # calls back into the context) is part of the running one: same
+        # deadline, same host-stack budget
+        outer = self._current_vm
+
         # Parse and compile: part of the evaluation the time limit is for
-        started = time.monotonic()
+        started = time.monotonic() if outer is None else outer.start_time
         compiled = self._compile_source(code, started)
 
         # Execute
         vm = VM(memory_limit=self.memory_limit, time_limit=self.time_limit)
         vm.start_time = started
+        if outer is not None:
+            vm.host_depth = outer.host_depth
 
         # Share globals with VM (don't copy - allows nested eval to modify globals)
         vm.globals = self._globals
 
-        # Store current VM for timeout checking in RegExp constructor
+        # Store current VM for timeout checking in RegExp constructor; the
+        # outer evaluation gets its own back when this one is over
         self._current_vm = vm
         try:
             result = vm.run(compiled)
         finally:
-            self._current_vm = None
+            self._current_vm = outer
 
         return self._to_python(result)
 
